@@ -232,7 +232,9 @@ def payload_docs(r, n):
                 "```{image} a.png\n:target: %s\n:width: 100%s\n:height: 5%s\n```\n" % (url, pay, pay),
                 "```{toc} %s\n:%s: %s\n```\n\n# h %s\n" % (pay, opt, pay, pay), "```{include} %s\n```\n" % pay,
                 # a table of contents that is really rendered (valid options): the entries show the heading texts once more
-                "```{toc}\n```\n\n# h %s\n\n## %s tail\n" % (pay, pay), ".. toc::\n   :max-level: 3\n\n# a %s\n\nb %s\n===\n" % (pay, pay),
+                "```{toc}\n```\n\n# h %s\n\n## %s tail\n" % (pay, pay),
+                # a heading whose text ENDS in an unterminated tag (what removes tags from the entry text finds none to remove)
+                "```{toc}\n```\n\n# h %s <x9 y9=1\n\n## t \\<x9 y9=1 z9\n" % pay, ".. toc::\n\n# a &lt;x9 y9=1\n\nb %s <x9\n===\n" % pay, ".. toc::\n   :max-level: 3\n\n# a %s\n\nb %s\n===\n" % (pay, pay),
                 "# first %s\n\n```{toc} Contents\n:min-level: 1\n```\n\n## `%s` and *%s*\n" % (pay, pay, pay), "```{toc}\n```\n\n# [%s](%s)\n" % (pay, url),
                 ".. note:: %s\n   :class: %s\n\n   body %s\n" % (pay, pay, pay), ".. image:: %s\n   :alt: %s\n" % (url, pay),
             ])
